@@ -65,11 +65,13 @@ def variant(text, rnd, kind):
                 out.append(l + " " + rnd.choice(["# trailing", "#[[ x ]]"]))
             else:
                 out.append(l)
-        elif kind == "case":
+        elif kind in ("case", "case_upper", "case_mixed"):
             m = re.match(r"^([A-Za-z_][A-Za-z0-9_]*)(\s*\()", s)
             if m:
                 w = m.group(1)
-                w2 = rnd.choice([w.upper(), w.lower(), "".join(c.upper() if i % 2 else c.lower() for i, c in enumerate(w))])
+                mixed = "".join(c.upper() if i % 2 else c.lower() for i, c in enumerate(w))
+                w2 = w.upper() if kind == "case_upper" else mixed if kind == "case_mixed" else \
+                    rnd.choice([w.upper(), w.lower(), mixed])
                 out.append(ind + w2 + s[len(w):])
             else:
                 out.append(l)
@@ -106,8 +108,9 @@ def run(seed, tier, stats, pid=None):
             cases += 1
             if ex is not None:
                 continue
-            kinds = ("space", "comments", "reindent", "case", "crlf", "inline") if name.startswith("gen") else \
-                ("reindent", "case", "crlf")     # line-wise edits are only safe on the generator's own line structure
+            kinds = ("space", "comments", "reindent", "case", "case_upper", "case_mixed", "crlf", "inline") \
+                if name.startswith("gen") else ("reindent", "case", "case_upper", "case_mixed", "crlf")
+            # (line-wise edits are only safe on the generator's own line structure)
             for kind in kinds:
                 v = text.replace("\n", "\r\n") if kind == "crlf" else variant(text, rnd, kind)
                 case = {"driver": "layout", "input": name, "variant": kind, "text": v if len(v) < 3000 else None,
@@ -125,7 +128,7 @@ def run(seed, tier, stats, pid=None):
         shutil.rmtree(tmp, ignore_errors=True)
         logging.disable(logging.NOTSET)
     return {"cases": cases, "distinct": len(distinct), "samples": samples, "violations": violations,
-            "bound": f"{len(texts)} modules x 6 variant kinds (inter-token white space, comments of 6 shapes, tokens before a doccomment on its line, uniform "
+            "bound": f"{len(texts)} modules x 8 variant kinds (inter-token white space, comments of 6 shapes, tokens before a doccomment on its line, uniform "
                      f"doccomment re-indentation, command-name case, CRLF), seed {seed}"}
 
 
